@@ -135,6 +135,35 @@ def ecVerify (raw : RawEc) (p : Provider) (k : KeyItem) (a : Alg) (m sig : Bytes
   | none => false
   | some rs => raw.verify p k a m rs
 
+/-- **C01/C12 for ECDSA: only the algorithm's exact form reaches the library.** If the framed `verify`
+of either provider accepts a third segment, that segment is exactly `2·w` octets — `w` big-endian octets
+of `r`, then `w` of `s` — and it is this pair of integers the mathematical primitive accepted. No
+truncated, extended or zero-extended re-framing of a valid pair is accepted, on either provider. -/
+theorem C01_ecdsa_exact_form (raw : RawEc) (p : Provider) (a : Alg) (k : KeyItem) (m sig : Bytes)
+    (he : Alg.isEcdsa a = true) (hs : strengthOk a k) (h : ecVerify raw p k a m sig = true) :
+    sig.length = 2 * coordWidth a ∧
+    raw.verify p k a m (fromBytes ((ofU8 sig).take (coordWidth a)),
+      fromBytes (((ofU8 sig).drop (coordWidth a)).take (coordWidth a))) = true := by
+  unfold ecVerify at h
+  cases hu : unframe p a k.bits (ofU8 sig) with
+  | none => simp [hu] at h
+  | some rs =>
+    simp only [hu] at h
+    have hl := C05_unframe_len p a k (ofU8 sig) rs he hs hu
+    have hw := widths a k he hs
+    refine ⟨by simpa [ofU8] using hl, ?_⟩
+    cases p with
+    | openssl =>
+      simp only [unframe, osslUnframe, hw.2, osslVerifyMul_eq] at hu
+      split at hu
+      · cases hu
+      · cases hu; exact h
+    | gnutls =>
+      simp only [unframe, gnutlsUnframe, gnutls_vwidth a he] at hu
+      split at hu
+      · cases hu
+      · cases hu; exact h
+
 theorem ofU8_toU8 (l : Octets) (h : ∀ b ∈ l, b < 256) : ofU8 (toU8 l) = l := by
   induction l with
   | nil => rfl
